@@ -125,9 +125,9 @@ def build_specs(ctx):
                 for v in ((1, 2, 3, 7) if ctx.quick else tuple(range(1, layouts.N_VARIANTS))):
                     add('exec', layouts.variant(p, v, ls * 1000 + 500 + i), f'extra[{i}]/v{v}')
     if not ctx.quick:
-        for name, seg in repo_fragments(rng, 260):
+        for name, seg in repo_fragments(rng, 650):
             add('exec', seg, f'repo:{name}')
-        for name, seg in tests_data_sources(rng, 700):
+        for name, seg in tests_data_sources(rng, 1800):
             add('exec', seg, f'tests-data:{name}')
     return specs
 
